@@ -68,6 +68,54 @@ impl fmt::Display for RecvError {
     }
 }
 
+/// A channel without a capacity limit (sends never block).
+pub fn unbounded<T>() -> (Sender<T>, Receiver<T>) {
+    bounded(usize::MAX / 4)
+}
+
+#[derive(Debug, PartialEq, Eq, Clone, Copy)]
+pub enum TryRecvError {
+    Empty,
+    Disconnected,
+}
+
+impl fmt::Display for TryRecvError {
+    fn fmt(&self, f: &mut fmt::Formatter<'_>) -> fmt::Result {
+        match self {
+            TryRecvError::Empty => write!(f, "receiving on an empty channel"),
+            TryRecvError::Disconnected => write!(f, "receiving on an empty and disconnected channel"),
+        }
+    }
+}
+
+pub enum TrySendError<T> {
+    Full(T),
+    Disconnected(T),
+}
+
+impl<T> fmt::Debug for TrySendError<T> {
+    fn fmt(&self, f: &mut fmt::Formatter<'_>) -> fmt::Result {
+        match self {
+            TrySendError::Full(_) => write!(f, "Full(..)"),
+            TrySendError::Disconnected(_) => write!(f, "Disconnected(..)"),
+        }
+    }
+}
+
+impl<T> fmt::Display for TrySendError<T> {
+    fn fmt(&self, f: &mut fmt::Formatter<'_>) -> fmt::Result {
+        match self {
+            TrySendError::Full(_) => write!(f, "sending on a full channel"),
+            TrySendError::Disconnected(_) => write!(f, "sending on a disconnected channel"),
+        }
+    }
+}
+
+impl<T> std::error::Error for SendError<T> {}
+impl std::error::Error for RecvError {}
+impl std::error::Error for TryRecvError {}
+impl<T> std::error::Error for TrySendError<T> {}
+
 pub fn bounded<T>(cap: usize) -> (Sender<T>, Receiver<T>) {
     let ch = Arc::new(Chan {
         st: Mutex::new(State {
@@ -91,7 +139,7 @@ impl<T> Sender<T> {
             if st.receivers == 0 {
                 return Err(SendError(msg));
             }
-            if st.queue.len() < st.cap + st.waiting {
+            if st.queue.len() < st.cap.saturating_add(st.waiting) {
                 st.queue.push_back(msg);
                 self.ch.cv_recv.notify_all();
                 return Ok(());
@@ -102,7 +150,64 @@ impl<T> Sender<T> {
     }
 }
 
+impl<T> Sender<T> {
+    /// Non-blocking send (a rendezvous channel accepts it only if a receiver
+    /// is already committed to taking a message).
+    pub fn try_send(&self, msg: T) -> Result<(), TrySendError<T>> {
+        OPS.fetch_add(1, Ordering::Relaxed);
+        let mut st = self.ch.st.lock().unwrap();
+        if st.receivers == 0 {
+            return Err(TrySendError::Disconnected(msg));
+        }
+        if st.queue.len() < st.cap.saturating_add(st.waiting) {
+            st.queue.push_back(msg);
+            self.ch.cv_recv.notify_all();
+            Ok(())
+        } else {
+            Err(TrySendError::Full(msg))
+        }
+    }
+    pub fn len(&self) -> usize {
+        self.ch.st.lock().unwrap().queue.len()
+    }
+    pub fn is_empty(&self) -> bool {
+        self.len() == 0
+    }
+    pub fn capacity(&self) -> Option<usize> {
+        let c = self.ch.st.lock().unwrap().cap;
+        if c >= usize::MAX / 4 {
+            None
+        } else {
+            Some(c)
+        }
+    }
+}
+
 impl<T> Receiver<T> {
+    /// Non-blocking receive.
+    pub fn try_recv(&self) -> Result<T, TryRecvError> {
+        OPS.fetch_add(1, Ordering::Relaxed);
+        let mut st = self.ch.st.lock().unwrap();
+        if let Some(x) = st.queue.pop_front() {
+            self.ch.cv_send.notify_all();
+            return Ok(x);
+        }
+        if st.senders == 0 {
+            Err(TryRecvError::Disconnected)
+        } else {
+            Err(TryRecvError::Empty)
+        }
+    }
+    pub fn len(&self) -> usize {
+        self.ch.st.lock().unwrap().queue.len()
+    }
+    pub fn is_empty(&self) -> bool {
+        self.len() == 0
+    }
+    pub fn try_iter(&self) -> TryIter<'_, T> {
+        TryIter { rx: self }
+    }
+
     pub fn recv(&self) -> Result<T, RecvError> {
         OPS.fetch_add(1, Ordering::Relaxed);
         let mut st = self.ch.st.lock().unwrap();
@@ -208,5 +313,16 @@ impl<'a, T> IntoIterator for &'a Receiver<T> {
     type IntoIter = Iter<'a, T>;
     fn into_iter(self) -> Iter<'a, T> {
         self.iter()
+    }
+}
+
+pub struct TryIter<'a, T> {
+    rx: &'a Receiver<T>,
+}
+
+impl<'a, T> Iterator for TryIter<'a, T> {
+    type Item = T;
+    fn next(&mut self) -> Option<T> {
+        self.rx.try_recv().ok()
     }
 }
